@@ -111,6 +111,8 @@ def cut_points(text, token_boundaries=True):
         if c in "-,;=" and not st[2]:
             if (not token_boundaries) or text[i + 1] == " " or c == ",":
                 pts.append(i + 1)
+        elif c == "." and not st[2] and (st[0] > 0 or st[1] > 0) and text[i + 1] == " " and token_boundaries:
+            pts.append(i + 1)      # a period INSIDE brackets ends no rule: the line may break after it (`[Mr., Dr.` / `Jekyll]`)
     return pts
 
 COMMENTS = ["# a comment", "% note: r(1).", "// see p(2), q.", "#", "%%% (unbalanced [", "// \"quote", "# ends in ,",
@@ -184,6 +186,8 @@ HAND_TEXTS = [
     ['check($Pr, $V) :- print(" --> \'%s\' and \'%s\' do not agree.", $Pr, $V).'],
     # comment characters as ordinary text inside brackets, at places where a line may break
     ['tagged(post1, #rust, prolog).', 'enc([a, %20, b], %s., $R).', 'share(x, //server/share, y).'],
+    # periods inside brackets, followed by a space: a line may end there without ending the rule
+    ['titles([Mr., Mrs., Dr. Jekyll, Pr. X]).', 'abbr(etc. and so on, e.g. this).'],
     # non-ASCII text (bytes and characters differ)
     ['city(\u6e0b\u8c37, \u6771\u4eac).', 'p\u00e8re(\u00c9ric, Zo\u00e9) :- m\u00e8re(Zo\u00e9, $X), $X = "\u00e9# x".'],
 ]
